@@ -1,6 +1,7 @@
 package main
 
 import (
+	"os"
 	"fmt"
 	"go/constant"
 	"go/token"
@@ -69,6 +70,8 @@ type cmpEval struct {
 	steps int
 	// uninterpreted functions: name -> handler
 	uninterp map[string]func(ev *cmpEval, args []aval) aval
+	// strSyms: string constants that take part in comparisons, mapped to symbols of the ordering
+	strSyms map[string]aSym
 	// callbacks invoked via closures are evaluated inline
 }
 
@@ -127,6 +130,9 @@ func (ev *cmpEval) Call(fn *ssa.Function, args []aval, bind []aval) aval {
 		leave("call to %s: no body available", ev.c.FuncName(fn))
 	}
 	ev.depth++
+	if os.Getenv("SGDEBUG") != "" {
+		fmt.Fprintf(os.Stderr, "%*seval %s\n", ev.depth, "", ev.c.FuncName(fn))
+	}
 	if ev.depth > 40 {
 		leave("recursion depth exceeded in %s", ev.c.FuncName(fn))
 	}
@@ -353,6 +359,8 @@ func (ev *cmpEval) Call(fn *ssa.Function, args []aval, bind []aval) aval {
 				}
 			case *ssa.MakeInterface:
 				env[x] = get(x.X)
+			case *ssa.ChangeInterface:
+				env[x] = get(x.X)
 			case *ssa.Panic:
 				leave("%s: panic reached at %s", ev.c.FuncName(fn), ev.c.Pos(x.Pos()))
 			default:
@@ -394,6 +402,9 @@ func (ev *cmpEval) constVal(k *ssa.Const) aval {
 	case constant.String:
 		if constant.StringVal(k.Value) == "" {
 			return aSym{0}
+		}
+		if s, ok := ev.strSyms[constant.StringVal(k.Value)]; ok {
+			return s
 		}
 		return aOpaque{"str:" + constant.StringVal(k.Value)}
 	}
